@@ -136,7 +136,13 @@ func main() {
 		bs := bufs[r.Intn(len(bufs))]
 		dec := client.NewDecoder(bufio.NewReaderSize(&fragReader{b: append([]byte{}, stream...), frag: fr}, bs))
 		var os1 []obs
-		for i := 0; ; i++ {
+		type held struct {
+			name string
+			argv [][]byte
+			off  int64
+		}
+		var helds []held
+		for {
 			resp, off, err := client.MustDecodeOpt(dec)
 			if err != nil {
 				break
@@ -145,13 +151,13 @@ func main() {
 			if err != nil {
 				break
 			}
-			// copy: the decoder may hand out slices of a reused buffer
-			cp := make([][]byte, len(argv))
-			for k := range argv {
-				cp[k] = append([]byte{}, argv[k]...)
-			}
-			o := compare(i, cp, name)
-			o.Off = start + off
+			// keep what the decoder handed out: the tool queues commands, so earlier
+			// arguments must stay intact while later ones are decoded
+			helds = append(helds, held{name, argv, off})
+		}
+		for i, h := range helds {
+			o := compare(i, h.argv, h.name)
+			o.Off = start + h.off
 			os1 = append(os1, o)
 		}
 		if os1 == nil {
@@ -240,6 +246,11 @@ func main() {
 			run(c)
 		}
 		f.Close()
+	}
+	if *shard == 0 {
+		// directed: several arguments above 1 MiB in one command and in consecutive commands
+		run(caseLine{Cmds: [][]int{{3, 2 << 20, 2, 1 << 20}, {1, (1 << 20) + 7}, {0}}, Hb: []int{0, 1, 0}})
+		run(caseLine{Cmds: [][]int{{1, 3 << 20}, {1, 1 << 20}, {1, 2 << 20}}, Hb: []int{0, 0, 2}})
 	}
 	for i := 0; i < *nrand; i++ {
 		var c caseLine
